@@ -21,8 +21,23 @@ Clause → theorem
   keyword-bound dependence functions: call succeeds iff the bound
   parameters are the trailing ones, and then every free parameter
   receives its own value                                         bindCall_ok_iff_suffix, bindCall_positions
+  "defaults": parameters come from the callable's signature,
+  a parameter without default is 1                               defaultParams_names, defaultParams_default,
+                                                                 defaultParams_implicit_one
+  explicit-parameter call: stored values iff none given, the given
+  ones iff their number is the number of free parameters,
+  otherwise an error                                             callMode_stored_iff, callMode_explicit_iff,
+                                                                 callMode_error_iff
+  one dependence function used as a parameter AND inside another
+  parameter's dependence function: one value for both            shared_inner_same_value
+  sampling: size handed to the template's sampler is (n, k) for a
+  vector `given` of length k (every parameter broadcast first),
+  n for a scalar `given` with scalar dependence values           cond_sample_shape_vector, cond_sample_shape_scalar
+  (that the SAMPLE equals the template's sample at the broadcast values for the same seed is
+  observed by the harness against every shipped family, not proven: the samplers are scipy's)
 -/
 import VirVerif.Model.Cond
+import VirVerif.Model.Sampling
 import Mathlib.Data.List.Basic
 import Mathlib.Tactic.Linarith
 
@@ -128,11 +143,112 @@ theorem bindCall_positions (names bound : List String) (r : List (String × ArgS
     rw [List.getElem?_map, List.getElem?_zipIdx, List.getElem?_take]
     simp [hk, List.getElem?_eq_getElem hk']
 
+
+/-! ### signature defaults, explicit-parameter call -/
+
+/-- the parameter names are the signature's names after `x`, in order -/
+theorem defaultParams_names {γ : Type} [OfNat γ 1] (sig : List (String × Option γ)) :
+    (defaultParams sig).map Prod.fst = sig.map Prod.fst := by
+  simp only [defaultParams, List.map_map]
+  apply List.map_congr_left
+  intro ⟨n, d⟩ _
+  rfl
+
+/-- **a parameter with a signature default has that value** -/
+theorem defaultParams_default {γ : Type} [OfNat γ 1] (sig : List (String × Option γ)) (k : Nat)
+    (name : String) (d : γ) (h : sig[k]? = some (name, some d)) :
+    (defaultParams sig)[k]? = some (name, d) := by
+  simp [defaultParams, h]
+
+/-- **a parameter without a signature default is 1** -/
+theorem defaultParams_implicit_one {γ : Type} [OfNat γ 1] (sig : List (String × Option γ)) (k : Nat)
+    (name : String) (h : sig[k]? = some (name, none)) :
+    (defaultParams sig)[k]? = some (name, 1) := by
+  simp [defaultParams, h]
+
+/-- the stored parameters are used exactly when no parameter value is passed -/
+theorem callMode_stored_iff (nFree nArgs nKw : Nat) :
+    callMode nFree nArgs nKw = .stored ↔ nArgs + nKw = 0 := by
+  unfold callMode
+  split_ifs with h0 h1
+  · exact ⟨fun _ => h0, fun _ => rfl⟩
+  · exact ⟨fun h => (by cases h), fun h => absurd h h0⟩
+  · exact ⟨fun h => (by cases h), fun h => absurd h h0⟩
+
+/-- the passed values are used exactly when at least one is passed and their number (positional +
+keyword) equals the number of free parameters -/
+theorem callMode_explicit_iff (nFree nArgs nKw : Nat) :
+    callMode nFree nArgs nKw = .explicit ↔ nArgs + nKw ≠ 0 ∧ nArgs + nKw = nFree := by
+  unfold callMode
+  split_ifs with h0 h1
+  · exact ⟨fun h => (by cases h), fun h => absurd h0 h.1⟩
+  · exact ⟨fun _ => ⟨h0, h1⟩, fun _ => rfl⟩
+  · exact ⟨fun h => (by cases h), fun h => absurd h.2 h1⟩
+
+/-- every other number of passed values is rejected -/
+theorem callMode_error_iff (nFree nArgs nKw : Nat) :
+    callMode nFree nArgs nKw = .error ↔ nArgs + nKw ≠ 0 ∧ nArgs + nKw ≠ nFree := by
+  unfold callMode
+  split_ifs with h0 h1
+  · exact ⟨fun h => (by cases h), fun h => absurd h0 h.1⟩
+  · exact ⟨fun h => (by cases h), fun h => absurd h1 h.2⟩
+  · exact ⟨fun _ => ⟨h0, h1⟩, fun _ => rfl⟩
+
+/-! ### one dependence function shared between a parameter and another parameter's function -/
+
+/-- **shared inner function**: when the dependence function `d` is the `k`-th parameter and ALSO
+the inner function of the `k'`-th parameter's chained dependence function, the chained one is
+computed from the very value the `k`-th parameter has at this `g`. -/
+theorem shared_inner_same_value (specs : List (String × ParSpec α)) (g : α) (k k' : Nat)
+    (n n' : String) (a b : α) (d : DepFn α)
+    (h : specs[k]? = some (n, .dep d)) (h' : specs[k']? = some (n', .dep (.chained a b d))) :
+    ∃ v, (paramValues specs g)[k]? = some (n, v) ∧
+      (paramValues specs g)[k']? = some (n', (a + b * g) / v) := by
+  refine ⟨d.eval g, ?_, ?_⟩
+  · simp [paramValues, h]
+  · simp [paramValues, h', DepFn.eval]
+
+/-! ### size handed to the template's sampler -/
+
+/-- **vector given**: `ConditionalDistribution.draw_sample(n, given)` with `k` conditioning values
+asks the template for an `(n, k)` sample — `n` realisations per conditioning value — whatever
+mixture of scalars (fixed parameters, constant dependence functions) and length-`k` vectors the
+dependence values are. -/
+theorem cond_sample_shape_vector (n k : Nat) (raw : List ParShape) (hne : raw ≠ [])
+    (hvec : ∀ p ∈ raw, p = .scalar ∨ p = .vector k) :
+    rvsSize n (condParShapes (some k) raw) = .matrix n k := by
+  have hall : ∀ p ∈ condParShapes (some k) raw, p = .vector k := by
+    intro p hp
+    simp only [condParShapes, List.mem_map] at hp
+    obtain ⟨q, hq, rfl⟩ := hp
+    rcases hvec q hq with rfl | rfl <;> rfl
+  have hne' : condParShapes (some k) raw ≠ [] := by
+    simp [condParShapes, hne]
+  rcases (condParShapes (some k) raw).eq_nil_or_concat with h | ⟨init, lst, h⟩
+  · exact absurd h hne'
+  · have hl : lst = .vector k := hall lst (by rw [h]; simp)
+    rw [h, hl]
+    simp [rvsSize, List.filterMap_append, vecLen?]
+
+/-- **scalar given** (scalar dependence values): a flat sample of `n` realisations -/
+theorem cond_sample_shape_scalar (n : Nat) (raw : List ParShape) (h : ∀ p ∈ raw, p = .scalar) :
+    rvsSize n (condParShapes none raw) = .flat n := by
+  have : raw.filterMap vecLen? = [] := by
+    rw [List.filterMap_eq_nil_iff]
+    intro p hp
+    rw [h p hp]; rfl
+  simp [rvsSize, condParShapes, this]
+
 /-! ### non-vacuity -/
 example : bindCall ["a", "b", "d"] ["d"] =
     .ok [("a", .positional 0), ("b", .positional 1), ("d", .boundDep)] := by decide
 example : bindCall ["d", "a", "b"] ["d"] = .error "multipleValues" := by decide
 example : (paramValues [("s", ParSpec.dep (.affine 1 2)), ("l", .fixed 5)] (3 : Int)) = [("s", 7), ("l", 5)] := by
   decide
+example : defaultParams [("a", some (2 : Int)), ("b", none)] = [("a", 2), ("b", 1)] := by decide
+example : callMode 2 0 0 = .stored ∧ callMode 2 1 1 = .explicit ∧ callMode 2 1 0 = .error ∧
+    callMode 0 0 0 = .stored := by decide
+example : rvsSize 4 (condParShapes (some 3) [.scalar, .vector 3]) = .matrix 4 3 := by decide
+example : rvsSize 4 (condParShapes none [.scalar, .scalar]) = .flat 4 := by decide
 
 end VirVerif.C08
